@@ -36,7 +36,14 @@ pub enum Op {
     /// transient storage fault: the (k+1)-th device call from now fails once with an I/O error; the model-based and
     /// raw-image judgements are suspended for the next `hold` operations (the faulted call may have been cut short at
     /// any point) and resume after them
-    FaultNext { k: u16, hold: u8 },
+    FaultNext {
+        k: u16,
+        hold: u8,
+        /// the error is the retryable "interrupted" condition (the library's transfer loops must retry it; whatever does
+        /// not retry must report it)
+        #[serde(default)]
+        interrupted: bool,
+    },
 }
 
 #[derive(Clone, Copy, Debug, PartialEq, Eq, Hash, PartialOrd, Ord, Serialize, Deserialize)]
@@ -514,13 +521,15 @@ impl<'a> Run<'a> {
         if self.sess.is_none() {
             return Ok(());
         }
-        if let Op::FaultNext { k, hold } = op {
+        if let Op::FaultNext { k, hold, interrupted } = op {
             let k = *k as u64;
+            let intr = *interrupted;
             self.dev.with(|d| {
                 d.fail_at = Some(d.calls + 1 + k);
                 d.fail_tag = 0xFA17;
                 d.fired = None;
                 d.fail_kind = None;
+                d.fail_interrupted = intr;
             });
             self.fault_hold = *hold as u32;
             self.trace.hit("fault_armed");
